@@ -79,3 +79,53 @@ def finite_instance(assumptions, goal, K=4):
     for s in seq_consts(list(assumptions) + [goal]):
         out.append(z3.Length(s) <= K)
     return out
+
+
+_HARD_KINDS = None
+
+
+def abstract_hard(formulas):
+    """Weaker copies of quantifier-free formulas for a CANDIDATE counter-model search: every application of a sequence / string operation
+    z3's solver is incomplete on (replace, replace_all, str<->int conversions, indexof with offset ...) becomes an application of an
+    uninterpreted function of the same arguments.  A model of the result is only a candidate (the abstraction forgets what the operations
+    mean); it is used exactly like a finite-instantiation model."""
+    global _HARD_KINDS
+    if _HARD_KINDS is None:
+        names = ("Z3_OP_SEQ_REPLACE_ALL", "Z3_OP_SEQ_REPLACE", "Z3_OP_SEQ_REPLACE_RE", "Z3_OP_SEQ_REPLACE_RE_ALL", "Z3_OP_STR_TO_INT", "Z3_OP_INT_TO_STR",
+                 "Z3_OP_STRING_STOI", "Z3_OP_STRING_ITOS", "Z3_OP_SEQ_LAST_INDEX", "Z3_OP_STRING_TO_CODE", "Z3_OP_STRING_FROM_CODE")
+        _HARD_KINDS = {getattr(z3, n) for n in names if hasattr(z3, n)}
+    hard, seen = [], set()
+    stack = list(formulas)
+    while stack:
+        x = stack.pop()
+        if x.get_id() in seen or z3.is_quantifier(x) or not z3.is_app(x):
+            continue
+        seen.add(x.get_id())
+        if x.decl().kind() in _HARD_KINDS:
+            hard.append(x)
+        stack.extend(x.children())
+    if not hard:
+        return None
+
+    def size(t):
+        n, st, sn = 0, [t], set()
+        while st:
+            y = st.pop()
+            if y.get_id() in sn:
+                continue
+            sn.add(y.get_id())
+            n += 1
+            if z3.is_app(y):
+                st.extend(y.children())
+        return n
+
+    hard.sort(key=size)
+    pairs, fns = [], {}
+    for t in hard:
+        t2 = z3.substitute(t, *pairs) if pairs else t
+        ch = t2.children()
+        key = (t.decl().kind(), tuple(c.sort().sexpr() for c in ch), t.sort().sexpr())
+        if key not in fns:
+            fns[key] = z3.Function("abs_%s_%d" % (t.decl().name().replace(".", "_"), len(fns)), *([c.sort() for c in ch] + [t.sort()]))
+        pairs.append((t, fns[key](*ch)))
+    return [z3.substitute(f, *pairs) for f in formulas]
